@@ -271,15 +271,25 @@ func (f *fn) oracle(x *ast.CallExpr, c *types.Func, args []ast.Expr) (string, bo
 			name, args = p+"_"+c.Name(), args[1:]
 		}
 	}
-	var vs, ts []string
+	var vs, ts, closed []string
 	for _, a := range args {
+		if id, isID := unparen(a).(*ast.Ident); isID { // a whole struct variable or a foreign-typed parameter: closed over
+			if _, _, _, isRoot := f.path(id); isRoot || f.foreign[f.pi.info.Uses[id]] {
+				closed = append(closed, id.Name)
+				continue
+			}
+		}
 		v, t := f.values(a)
 		vs, ts = append(vs, v...), append(ts, t...)
 	}
+	if prev, seen := f.closedOver[name]; seen && prev != strings.Join(closed, ",") {
+		f.fail(x, "oracle %s is called with different closed-over arguments (%s, %s)", name, prev, strings.Join(closed, ","))
+	}
+	f.closedOver[name] = strings.Join(closed, ",")
 	var rts []string
 	for i := 0; i < sg.Results().Len(); i++ {
 		rt := f.tyOf(sg.Results().At(i).Type())
-		if !leaf(rt) && rt.k != kStruct {
+		if !leaf(rt) && rt.k != kStruct && rt.k != kOpaque {
 			f.fail(x, "result of oracle %s has a type outside the fragment", oracleKey(c))
 		}
 		rts = append(rts, f.lean(rt))
